@@ -3,6 +3,7 @@
 
 #[macro_use]
 pub mod engine;
+pub mod fuzzdec;
 pub mod gen;
 pub mod oracle;
 pub mod props;
